@@ -439,7 +439,7 @@ def _fix_positions(c):
 
 
 def run(ctx):
-    n = ctx.scale(3, 30)
+    n = ctx.scale(3, 24)
     cases = [_fix_positions(gen_case(ctx.rng, ctx.thorough, f)) for f in FORCED[:n]]
     while len(cases) < n:
         cases.append(gen_case(ctx.rng, ctx.thorough))
